@@ -1223,19 +1223,11 @@ impl HelperAttributeKinds {
         }
     }
     fn is_match_cmp_attr(&self, op: CompareOp) -> bool {
-        match op {
-            CompareOp::Ord => {
-                self.ord
-                    || self.is_match_cmp_attr(CompareOp::PartialEq)
-                    || self.is_match_cmp_attr(CompareOp::Eq)
-            }
-            CompareOp::PartialOrd => {
-                self.partial_ord || self.is_match_cmp_attr(CompareOp::PartialEq)
-            }
-            CompareOp::Eq => self.eq || self.is_match_cmp_attr(CompareOp::PartialEq),
-            CompareOp::PartialEq => self.partial_eq,
-            CompareOp::Hash => self.hash,
-        }
+        (self.ord && op.is_effects_to(CompareOp::Ord))
+            || (self.partial_ord && op.is_effects_to(CompareOp::PartialOrd))
+            || (self.eq && op.is_effects_to(CompareOp::Eq))
+            || (self.partial_eq && op.is_effects_to(CompareOp::PartialEq))
+            || (self.hash && op.is_effects_to(CompareOp::Hash))
     }
 
     fn is_match(&self, attr: &Attribute) -> bool {
